@@ -18,7 +18,7 @@ def run_e2e_property(prop, tier, explanation, design_ref, scopes, contract_modul
         for mlabel, opts in extra_modes:
             cr.bounded_check(run_programs, f"{label}-{mlabel}", progs,
                              f"{len(progs)} programs: {desc}; options={opts}; inputs: all int32 (SMT)",
-                             cr.known, opts=dict(opts))
+                             cr.known, opts=dict(opts), option_refusal_ok="power_pole_type" in opts)
     if extra:
         extra(cr)
     return cr.finish()
